@@ -1,2 +1,111 @@
 import Model
-def main : IO Unit := IO.println (Model.toHex (Model.encodeVlq 64))
+
+/-!
+drv — line-protocol driver: one operation per line on stdin, one result line on stdout.
+The harness runs the real skepticoin code on the same operations and diffs the two streams.
+Byte strings are hex (`-` = empty).
+-/
+
+open Model
+
+structure DState where
+  params : Params
+  sigs : List (Bytes × Bytes × Bytes)        -- (pk, msg, sig) triples that verify
+  scrypts : List (Bytes × Bytes × Bytes)     -- (password, salt, out) for the real scrypt
+  states : List (String × CoinState)
+
+def defaultParams : Params := {
+  maxSashimi := 2099999986350000, maxBlockSize := 200000, maxFutureBlockTime := 30,
+  maxCoinbaseData := 200, retargetInterval := 10080, retargetTimespan := 1209600,
+  halvingInterval := 1050000, initialSubsidy := 1000000000, sampleCount := 8, sampleSize := 4,
+  maxKnownHeight := -1, knownHashes := [], inventorySize := 500, ibdValidationSkip := 10000,
+  maxMessageSize := 33554432, timeToSecondAttempt := 10, maxTimeBetweenAttempts := 1800,
+  maxConnectionAttempts := 2880, getPeersInterval := 1800, peersFileMax := 100 }
+
+def magicBytes : Bytes := [77, 65, 74, 73]
+
+/-- the stub the harness installs for `consensus.scrypt` unless a table entry exists -/
+def DState.crypto (d : DState) : Crypto where
+  sha256d := sha256d
+  blake2 := blake2b32
+  scrypt pw salt :=
+    match d.scrypts.find? (fun e => e.1 == pw && e.2.1 == salt) with
+    | some e => e.2.2
+    | none => sha256 (pw ++ salt)
+  verify pk msg sig := d.sigs.any (fun e => e.1 == pk && e.2.1 == msg && e.2.2 == sig)
+
+def hx (s : String) : Bytes := (ofHex s).getD []
+
+def decCmd (C : Crypto) (ty : String) (bs : Bytes) : String :=
+  let fin {α : Type} (c : Codec α) (idf : α → Option Bytes) : String :=
+    match c.dec bs with
+    | none => "err"
+    | some (a, r) =>
+      let used := bs.length - r.length
+      s!"ok {used} {hexOr (c.enc a)}" ++ (match idf a with | some i => " " ++ toHex i | none => "")
+  match ty with
+  | "outref" => fin OutRef.codec (fun _ => none)
+  | "sig" => fin Sig.codec (fun _ => none)
+  | "pk" => fin pkCodec (fun _ => none)
+  | "input" => fin Input.codec (fun _ => none)
+  | "output" => fin Output.codec (fun _ => none)
+  | "evidence" => fin Evidence.codec (fun _ => none)
+  | "summary" => fin Summary.codec (fun s => some (C.sha256d (encSummary s)))
+  | "header" => fin Header.codec (fun h => some (C.sha256d (encHeader h)))
+  | "tx" =>
+    match decTx C.sha256d bs with
+    | none => "err"
+    | some (t, r) => s!"ok {bs.length - r.length} {hexOr (encTx t.tx)} {toHex (t.id C)}"
+  | "block" =>
+    match decBlock C.sha256d bs with
+    | none => "err"
+    | some (b, r) =>
+      let txids := String.intercalate "," (b.txs.map fun t => toHex (t.id C))
+      s!"ok {bs.length - r.length} {hexOr (encBlock b)} {toHex (b.id C)} {txids}"
+  | "msg" =>
+    match decodeFrame bs with
+    | none => "err"
+    | some (h, m) => s!"ok {hexOr (encodeFrame h m)}"
+  | _ => "bad-op"
+
+def errName : FErr → String
+  | .magic => "magic"
+  | .tooBig => "toobig"
+  | .handler => "handler"
+
+def framesCmd (maxSize : Nat) (chunks : List Bytes) : String :=
+  let r := feedAll magicBytes maxSize (fun p => (decodeFrame p).isNone) RState.init chunks
+  let ps := String.intercalate "," (r.payloads.map hexOr)
+  let e := match r.err with | none => "none" | some e => errName e
+  s!"{if ps.isEmpty then "." else ps} {e}"
+
+def step (d : DState) (line : String) : DState × String :=
+  let C := d.crypto
+  match (line.trimAscii.toString.splitOn " ").filter (· ≠ "") with
+  | ["vlqenc", n] => (d, match n.toNat? with | some k => toHex (encodeVlq k) | none => "bad-op")
+  | ["vlqdec", h] =>
+    (d, match decodeVlq (hx h) with
+      | some (v, r) => s!"ok {v} {(hx h).length - r.length}"
+      | none => "err")
+  | ["dec", ty, h] => (d, decCmd C ty (hx h))
+  | ["sha256d", h] => (d, toHex (sha256d (hx h)))
+  | ["blake2", h] => (d, toHex (blake2b32 (hx h)))
+  | ["subsidy", n] => (d, match n.toNat? with | some k => toString (subsidy d.params k) | none => "bad-op")
+  | "frames" :: ms :: chunks =>
+    (d, match ms.toNat? with
+      | some m => framesCmd m (chunks.map hx)
+      | none => "bad-op")
+  | _ => (d, "bad-op")
+
+partial def loop (h : IO.FS.Stream) (out : IO.FS.Stream) (d : DState) : IO Unit := do
+  let line ← h.getLine
+  if line.isEmpty then return ()
+  let (d', o) := step d line
+  out.putStrLn o
+  if line.trimAscii.toString == "flush" then out.flush
+  loop h out d'
+
+def main : IO Unit := do
+  let out ← IO.getStdout
+  loop (← IO.getStdin) out ⟨defaultParams, [], [], []⟩
+  out.flush
